@@ -301,6 +301,9 @@ func TestC16Route(t *testing.T) {
 					last := calls[len(calls)-1]
 					if last.Op == "OnDataReceived" && last.Unique != onWire {
 						c.Violation("C16", "unique-flag", "block with BlockSizeOnWire()!=0 == %v reported unique=%v", onWire, last.Unique)
+						// the same observation decides the transport's half of C07 (a block that is not new on
+						// the wire must reach the accounting as non-unique, or its bytes are counted again)
+						c.Violation("C07", "transport-reports-repeated-block-as-unique", "incoming block with BlockSizeOnWire()!=0 == %v reported to the accounting with unique=%v", onWire, last.Unique)
 					}
 				}
 			case 1:
